@@ -32,14 +32,14 @@ Definition tt_negate_shipped (t : tax_total) : tax_total :=
 (* ---- RateTotal.Matches (exported; keys ignored) ---- *)
 Definition rt_Matches (a b : rate_total) : bool :=
   ext_eqb (rt_ext a) (rt_ext b) && eqb_bytes (rt_country a) (rt_country b) &&
+  let sur_ok := match rt_sur a, rt_sur b with
+                | None, None => true
+                | Some s, Some s2 => equals s s2
+                | _, _ => false
+                end in
   match rt_pct a, rt_pct b with
-  | None, None => true
-  | Some p, Some q =>
-    equals p q && match rt_sur a, rt_sur b with
-                  | None, None => true
-                  | Some s, Some s2 => equals s s2
-                  | _, _ => false
-                  end
+  | None, None => sur_ok       (* repaired in /repo: was `true`, and Merge dereferenced the missing surcharge *)
+  | Some p, Some q => equals p q && sur_ok
   | _, _ => false
   end.
 
